@@ -61,6 +61,35 @@ func fragFilter(g *Gen, n int, o *Out) {
 		o.count("filter:" + cls)
 		return ans
 	}
+	// the nil filter returns its input unchanged, whatever the input
+	for _, d := range []interface{}{nil, 1, "s", []int{1, 2}, map[string]int{"a": 1}, (*int)(nil), Inner{}} {
+		before := serAny(d)
+		ans := emitF("", d)
+		if ans != "nilfilter "+before {
+			o.finding(Finding{Property: "C17", Kind: "failing-input", What: "nil filter does not return its input unchanged: " + ans, Request: lastReq(o), Detail: fmt.Sprintf("input %T", d)})
+		}
+	}
+	// a map all of whose entries match: still a NEW map
+	{
+		m := map[string]map[string]interface{}{"a": {"x": 1}, "b": {"x": 1}}
+		f, _ := bexpr.CreateFilter("x == 1")
+		res, err := f.Execute(m)
+		if err == nil {
+			if rm, ok := res.(map[string]map[string]interface{}); ok {
+				rm["added"] = nil
+				if _, leaked := m["added"]; leaked {
+					o.finding(Finding{Property: "C17", Kind: "failing-input", What: "Execute returned the input map itself (not a new map) when every entry matches", Request: "filter " + hx("x == 1") + " " + serAny(m) + " ( re )"})
+					delete(m, "added")
+				}
+			}
+		}
+		s := []interface{}{map[string]interface{}{"x": 0}, map[string]interface{}{"x": 1}, map[string]interface{}{"x": 2}, map[string]interface{}{"x": 1}}
+		before := serAny(s)
+		f.Execute(s)
+		if serAny(s) != before {
+			o.finding(Finding{Property: "C17", Kind: "failing-input", What: "Execute modified its []interface{} input", Request: "filter " + hx("x == 1") + " " + before + " ( re )"})
+		}
+	}
 	for i := 0; i < n; i++ {
 		data := containerFor(g)
 		v := reflect.ValueOf(data)
@@ -226,7 +255,39 @@ func permutations(xs []OptSpec) [][]OptSpec {
 	return out
 }
 
+// optionSliceNotRetained: options are fixed at creation; later changes to the slice the caller
+// passed (reused for another evaluator) must not affect the first evaluator.
+func optionSliceNotRetained(o *Out) {
+	type rec struct {
+		J int `json:"jay" alt:"ay"`
+	}
+	d := rec{J: 3}
+	for _, first := range []string{"json", "alt"} {
+		for _, second := range []string{"bexpr", "yaml", "alt", "json"} {
+			opts := []bexpr.Option{bexpr.WithTagName(first), bexpr.WithUnknownValue("u")}
+			sel := map[string]string{"json": "jay", "alt": "ay"}[first]
+			ev, err := bexpr.CreateEvaluator(sel+" == 3", opts...)
+			if err != nil {
+				continue
+			}
+			before := safeEvaluate(ev, d)
+			opts[0] = bexpr.WithTagName(second)
+			opts[1] = bexpr.WithUnknownValue(3)
+			bexpr.CreateEvaluator("J == 3", opts...)
+			after := safeEvaluate(ev, d)
+			o.meta.Cases++
+			o.meta.Distinct++
+			if before != "T" || after != before {
+				o.finding(Finding{Property: "C18", Kind: "failing-history", What: fmt.Sprintf("evaluator created with tag %s returns %s, and %s after the caller reused its option slice with tag %s", first, before, after, second),
+					Request: "eval ( opts ( tag " + hx(first) + " ) ) " + hx(sel+" == 3") + " " + serAny(d) + " ( re )"})
+				o.finding(Finding{Property: "C08", Kind: "failing-history", What: "tag name of an evaluator changed after creation (caller's option slice retained)", Request: "eval ( opts ( tag " + hx(first) + " ) ) " + hx(sel+" == 3") + " " + serAny(d) + " ( re )"})
+			}
+		}
+	}
+}
+
 func fragOpts(g *Gen, n int, o *Out) {
+	optionSliceNotRetained(o)
 	for i := 0; i < n; i++ {
 		datum, root, paths := datumAndPaths(g, "bexpr")
 		// include hook-relevant data sometimes
@@ -314,6 +375,38 @@ func parseCount(text string) (interface{}, error, uint64, interface{}) {
 // ---------------------------------------------------------------- C13
 
 func fragHist(g *Gen, n int, o *Out) {
+	// classification of an absent leaf must be per datum: alternate the kind of the parent
+	type holder struct{ A int }
+	alt := []interface{}{
+		map[string]interface{}{"p": map[string]interface{}{"a": 1}},
+		map[string]interface{}{"p": holder{A: 1}},
+		map[string]interface{}{"p": []interface{}{1}},
+		map[string]interface{}{"p": map[string]int{}},
+		map[string]interface{}{"p": &holder{}},
+		map[string]interface{}{"p": map[string]interface{}{"zz": 1}},
+	}
+	for i := 0; i < n/4+1; i++ {
+		op := matchOps[g.r.Intn(len(matchOps))]
+		text, _, ok := g.renderTop(GMatch{Path: []string{"p", "zz"}, Op: op, Raw: "1"})
+		if !ok {
+			continue
+		}
+		ev, _ := create(text, nil)
+		if ev == nil {
+			continue
+		}
+		var hist []string
+		for h := 0; h < 6; h++ {
+			d := alt[g.r.Intn(len(alt))]
+			got := safeEvaluate(ev, d)
+			want := evalText(o, nil, text, d)
+			hist = append(hist, got)
+			if got != want {
+				o.finding(Finding{Property: "C13", Kind: "failing-history", What: fmt.Sprintf("call %d on a used evaluator returns %s, a fresh evaluator %s (history %v)", h, got, want, hist), Request: lastReq(o), Detail: text})
+				o.finding(Finding{Property: "C05", Kind: "failing-history", What: fmt.Sprintf("absent-key classification depends on earlier calls: %s vs %s", got, want), Request: lastReq(o), Detail: text})
+			}
+		}
+	}
 	for i := 0; i < n; i++ {
 		// one evaluator, a history of data
 		proto, root, paths := datumAndPaths(g, "bexpr")
@@ -378,7 +471,14 @@ func fragDet(g *Gen, n int, o *Out) {
 		m := map[string]interface{}{}
 		for len(m) < size {
 			k := interestingKeys[g.r.Intn(len(interestingKeys))] + fmt.Sprint(g.r.Intn(9))
-			switch g.r.Intn(4) {
+			if g.r.Intn(4) == 0 && len(k) > 0 {
+				// keys that differ by case only
+				m[strings.ToUpper(k)] = map[string]interface{}{"x": g.r.Intn(3)}
+				m[strings.ToLower(k)] = g.r.Intn(3)
+			}
+			switch g.r.Intn(5) {
+			case 4:
+				m[k] = map[string]interface{}{"y": g.r.Intn(3)} // lacks the field x
 			case 0:
 				m[k] = map[string]interface{}{"x": g.r.Intn(3)}
 			case 1:
@@ -415,10 +515,25 @@ func fragDet(g *Gen, n int, o *Out) {
 		if len(seen) > 1 {
 			o.finding(Finding{Property: "C14", Kind: "failing-input", What: fmt.Sprintf("repeated Evaluate gives different outcomes %v", seen), Request: lastReq(o), Detail: text})
 		}
+		// the same entries in a map[interface{}]interface{} (quantifiers must reject it the same way every time)
+		{
+			im := map[interface{}]interface{}{}
+			for k, v := range m {
+				im[k] = v
+			}
+			idatum := map[string]interface{}{"m": im}
+			ifirst := evalText(o, nil, text, idatum)
+			iseen := map[string]int{ifirst: 1}
+			if iev, _ := create(text, nil); iev != nil {
+				for r := 0; r < reps; r++ {
+					iseen[safeEvaluate(iev, idatum)]++
+				}
+			}
+			if len(iseen) > 1 {
+				o.finding(Finding{Property: "C14", Kind: "failing-input", What: fmt.Sprintf("repeated Evaluate over an interface-keyed map gives different outcomes %v", iseen), Request: lastReq(o), Detail: text})
+			}
+		}
 		// filters over maps
-		f, err := bexpr.CreateFilter(strings.Replace(strings.Replace(text, "", "", 0), "", "", 0))
-		_ = f
-		_ = err
 		inner, _, ok2 := g.renderTop(GMatch{Path: []string{"x"}, Op: "eq", Raw: fmt.Sprint(g.r.Intn(3))})
 		if ok2 {
 			fseen := map[string]int{}
